@@ -1,5 +1,6 @@
 import Model.C01.Curve
 import Model.C01.NumberTheory
+import Model.C01.Sec
 import Model.Common.ECProto
 /- Line protocol of property C01 (see harness/c01.py). -/
 namespace Btc.C01
@@ -156,6 +157,16 @@ def c01Op : List String → Option String
     pure (match newCurve (← parseInt? p) (← parseInt? a) (← parseInt? b) (← parseInt? gx) (← parseInt? gy)
             (← parseInt? n) (← parseInt? h) (weak == "1") (ord == "1") with
           | .ok _ => "ok" | .error e => s!"err value {e.name}")
+  -- SEC 1 codec
+  | ["sec.dec", c, hyb, hex] => do
+    let c ← curveOfToken c
+    let b ← if hex == "_" then some [] else fromHex? hex
+    pure (match pointFromOctets c.toCurveGroup (pSizeOf c.toCurveGroup) (hyb == "1") b with
+          | .ok Q => s!"ok {Q.1} {Q.2}" | .error e => s!"err value {e.name}")
+  | ["sec.enc", c, comp, q] => do
+    let c ← curveOfToken c
+    pure (match bytesFromPoint c.toCurveGroup (pSizeOf c.toCurveGroup) (← parseAff? q) (comp == "1") with
+          | some b => s!"ok {toHex b}" | none => "err value")
   -- number theory
   | ["nt.xgcd", a, b] => do let r := NT.xgcdVar (← parseInt? a) (← parseInt? b); pure s!"ok {r.1} {r.2.1} {r.2.2}"
   | ["nt.invblind", a, m, b] => do pure (rI (NT.modInvBlind (← parseInt? a) (← parseInt? m) (← parseInt? b)))
